@@ -4,6 +4,7 @@
 package world
 
 import (
+	"unsafe"
 	"context"
 	"fmt"
 	"hash/fnv"
@@ -156,7 +157,12 @@ type ProxyInst struct {
 	Bind     string
 	ServeErr error
 	Served   bool
+	sync     int
 }
+
+// BootSync orders the caller after the proxy's start-up for the race detector (the harness
+// observes start-up through the scheduler, whose hand-offs are hidden from it).
+func (pi *ProxyInst) BootSync() { simrt.RaceAcquire(unsafe.Pointer(&pi.sync)) }
 
 func New(cfg Config, s *simrt.Sched, n *simnet.Net, c *choice.Stream) *World {
 	w := &World{Cfg: cfg, S: s, N: n, C: c,
@@ -455,6 +461,8 @@ func (w *World) StartProxy(bind string, contact []string, tweak func(*proxy.Conf
 			return
 		}
 		pi.Listener = l.(*simnet.Listener)
+		// whatever the embedding program does after Connect/Listen returned is ordered after them
+		simrt.RaceRelease(unsafe.Pointer(&pi.sync))
 		pi.Booted = true
 		pi.ServeErr = p.Serve(l)
 		pi.Served = true
